@@ -67,7 +67,9 @@ def friction_velocity(
     )
 
     # Estimate direction from tail
-    direction = (180.0 / np.pi * np.arctan2(b1, a1)) % 360
+    # x % 360 rounds to exactly 360.0 for tiny negative x; the second modulo maps that
+    # value to 0 so that directions are in [0, 360).
+    direction = ((180.0 / np.pi * np.arctan2(b1, a1)) % 360) % 360
     coords = {x: spectrum.dataset[x].values for x in spectrum.dims_space_time}
     return xarray.Dataset(
         data_vars={
@@ -146,7 +148,7 @@ def estimate_u10_from_spectrum(
     z0 = charnock_roughness_length(dataset.friction_velocity, **kwargs)
 
     if direction_convention == "coming_from_clockwise_north":
-        dataset["direction"] = (270.0 - dataset["direction"]) % 360
+        dataset["direction"] = ((270.0 - dataset["direction"]) % 360) % 360
     elif direction_convention == "going_to_counter_clockwise_east":
         pass
     else:
